@@ -6,3 +6,7 @@ open ZCV.Props.C01
 #print axioms C01_accept_iff_conforms
 #print axioms C01_nonconforming_rejected
 #print axioms C01_text_accept_iff_conforms
+#print axioms C01_text_accept_iff_conforms'
+#print axioms C01_end_to_end
+#print axioms C01_end_to_end_stock
+#print axioms ZCV.Elab.elab_types_keys_lower
